@@ -5,7 +5,7 @@ From Arche Require Import Model.Base Model.Pool Model.Filter Model.World Model.O
   Proofs.Tables Proofs.Bits Proofs.Store Proofs.Graph Proofs.WorldInv Proofs.Cursor
   Proofs.Frame Proofs.StepFrame Proofs.Subs
   Proofs.RelGraph Proofs.RelWorld Proofs.RelRefine Proofs.QueryExact Proofs.CacheInv Proofs.BatchMove
-  Proofs.BatchExchange Proofs.BatchSetRel Proofs.EventsExact Proofs.BatchQ Proofs.BatchEvents Proofs.BatchCached.
+  Proofs.PoolInv Proofs.BatchExchange Proofs.BatchSetRel Proofs.BatchRemove Proofs.EventsExact Proofs.BatchQ Proofs.BatchEvents Proofs.BatchCached.
 
 Theorem batch_exchange_events_exact_arg w A (fa : farg) l f add rem rel w' n evs :
   R w A -> cache_ok w -> arg_tables w fa = Some l -> NoDup l -> (forall tid, tid ∈ l <-> tid ∈ World.get_tables w f) -> Forall (fun id => id < length (as_reg A)) add -> (add <> [] \/ rem <> []) ->
@@ -74,4 +74,107 @@ Corollary batch_exchange_events_cached w A id ce add rem rel w' n evs :
 Proof.
   intros HR C Hget Hadd Hne Hlis H. destruct (cached_arg_ok w id ce C Hget) as (Harg & Hnd & Hsel).
   by apply (batch_exchange_events_exact_arg w A (FCached id) (c_tables ce) (c_filter ce) add rem rel w' n evs).
+Qed.
+
+
+(** Batch.SetRelation and Batch.RemoveEntities through any filter argument. *)
+Theorem batch_set_relation_events_exact_arg w A (fa : farg) l f rid T w' n evs :
+  R w A -> cache_ok w -> arg_tables w fa = Some l -> NoDup l -> (forall tid, tid ∈ l <-> tid ∈ World.get_tables w f) -> w_listener w = Some lall ->
+  op_batch_set_relation w fa rid T = (w', Ok (VNat n), evs) ->
+  evs = flat_map (sr_ev w rid) (table_ents w (retargeted T w (l))).
+Proof.
+  intros HR C Harg Hndl Hsel Hlis H. pose proof HR as [K Hr Hu He].
+  unfold op_batch_set_relation in H.
+  destruct (set_relation_batch_nn w fa rid T) as [[[[w1 n1] segs]|]|[]] eqn:Hb; simpl in H; try done.
+  injection H as <- _ <-.
+  assert (Hloop : srloop rid T w (nonempty_tables w (l)) [] false = inl (Some (w1, segs))).
+  { unfold set_relation_batch_nn in Hb. rewrite Hu in Hb. destruct (negb _); [done|]. rewrite Harg in Hb.
+    change (batch_loop (fun w tid => set_relation_table w tid rid T)) with (srloop rid T) in Hb.
+    destruct (srloop rid T w (nonempty_tables w (l)) [] false) as [[[w1' segs']|]|p]; try done.
+    by injection Hb as <- _ <-. }
+  assert (Hnd : NoDup (nonempty_tables w (l))).
+  { unfold nonempty_tables. by apply NoDup_filter. }
+  assert (Hne : forall tid, tid ∈ nonempty_tables w (l) -> tbl_ents w tid <> []).
+  { intros tid Hin. unfold nonempty_tables in Hin. apply elem_of_list_filter in Hin as [Hs _].
+    unfold table_skip, tbl_ents in *. destruct (w_tables w !! tid) as [t|]; [|done]. apply Nat.eqb_neq in Hs. unfold tlen in Hs. by destruct (t_ents t). }
+  destruct (srloop_segs (as_live A) rid T _ w [] false w1 segs Hnd (r2_ok _ _ _ K) C Hne Hloop)
+    as (new & Hsegs & Hflat & Hall & _). simpl in Hsegs. subst new.
+  destruct (srloop_ok (as_live A) rid T _ w [] false w1 segs Hnd (r2_ok _ _ _ K) C Hne Hloop)
+    as (K1 & _ & F & _ & _ & _ & _ & Hviews).
+  assert (Hall2 : Forall (fun s => (s_skip s = false /\ s_start s < s_end s /\ s_end s <= length (tbl_ents w1 (s_tid s)) /\
+                     exists om orl ot, s_old s = Some (om, orl, ot) /\ ot <> T /\
+                       forall e, e ∈ seg_ents w1 s ->
+                         e ∈ as_live A /\ ent_mask w e = Some om /\ ent_rel w e = Some orl /\ ent_target w e = Some ot) /\
+                     (forall e, e ∈ seg_ents w1 s -> srviews T rid w w1 e)) segs).
+  { apply Forall_forall. intros s Hs. split; [by apply (proj1 (Forall_forall _ _) Hall)|].
+    intros e Hein.
+    assert (Hin_flat : e ∈ flat_map (seg_ents w1) segs) by (apply elem_of_list_In, in_flat_map; exists s; split; apply elem_of_list_In; done).
+    rewrite Hflat in Hin_flat. unfold table_ents in Hin_flat. apply elem_of_list_In, in_flat_map in Hin_flat as (tid' & Hin' & Hmem).
+    apply elem_of_list_In in Hin', Hmem. unfold retargeted in Hin'. apply elem_of_list_filter in Hin' as [_ Hin'].
+    by apply (Hviews tid' e). }
+  rewrite <- (table_ents_retargeted_nonempty T w (l)), <- Hflat, flat_map_flat_map.
+  unfold ev_batch. rewrite (fr_listener _ _ F), Hlis.
+  assert (Hul : is_locked w1 = false) by (unfold is_locked; by rewrite (fr_locks _ _ F)).
+  clear Hflat Hb Hloop Hall. induction Hall2 as [|s r [(Hsk & Hlt & Hle & om & orl & ot & Hold & Hotne & Hold_views) Hsv] _ IH]; [done|].
+  cbn [flat_map]. rewrite IH. f_equal. clear IH.
+  unfold tbl_ents in Hle. destruct (w_tables w1 !! s_tid s) as [t|] eqn:Ht; [|simpl in Hle; lia].
+  destruct (so_table _ _ (wr_store _ _ K1) (s_tid s) t Ht) as (nd & Hnd' & _). rewrite Hnd', Hold, Hul.
+  assert (Hse : seg_ents w1 s = take (s_end s - s_start s) (drop (s_start s) (t_ents t))).
+  { unfold seg_ents, tbl_ents. by rewrite Hsk, Ht. }
+  rewrite <- Hse.
+  apply flat_map_ext_mem. intros e Hein.
+  destruct (Hold_views e Hein) as (Hlive & V1 & V2 & V3).
+  destruct (Hsv e Hein) as (S1 & S2 & S3 & _ & S5).
+  rewrite Hse in Hein. apply elem_of_take in Hein as (i & Hi & _). rewrite lookup_drop in Hi.
+  destruct (so_rows _ _ (wr_store _ _ K1) (s_tid s) t _ e Ht Hi) as [_ Hloc].
+  destruct (views_of_row w1 (as_live A) e (s_tid s) _ t nd (wr_store _ _ K1) Hlive Hloc Ht Hnd') as (W1 & W2 & W3).
+  assert (Hm : n_mask nd = om) by congruence.
+  assert (Hrl : n_rel nd = orl) by congruence.
+  assert (Htg : t_target t = T) by congruence.
+  assert (Horl : orl = Some rid).
+  { destruct S5 as [S5|S5]; [|congruence]. rewrite V3 in S5. by injection S5. }
+  unfold sr_ev. rewrite V3, Hm, Hrl, Htg, Horl, N.lxor_nilpotent. cbn [opt_ne]. rewrite Nat.eqb_refl.
+  assert (Hneq : ent_eqb ot T = false) by (by apply ent_eqb_neq). rewrite Hneq.
+  cbn [bool_decide negb orb]. rewrite recipients_all by done. done.
+Qed.
+
+Theorem batch_remove_events_exact_arg w A (fa : farg) l f w' n evs :
+  R w A -> cache_ok w -> arg_tables w fa = Some l -> NoDup l -> (forall tid, tid ∈ l <-> tid ∈ World.get_tables w f) -> w_listener w = Some lall ->
+  (forall e, e ∈ table_ents w (l) -> (egen e < gen_max)%N) ->
+  op_remove_entities w fa = (w', Ok (VNat n), evs) ->
+  evs = flat_map (rm_ev w) (table_ents w (l)).
+Proof.
+  intros HR C Harg Hndl Hsel Hlis Hgen H. pose proof HR as [K Hr Hu He].
+  unfold op_remove_entities in H. rewrite Hu, Harg in H.
+  destruct (locks_lock (w_tb w) (w_locks w)) as [[lk b]|] eqn:Hlk; [|done].
+  set (wl := w <| w_locks := lk |>) in *.
+  assert (Kl : world_okr2 wl (as_live A) (as_issued A)).
+  { destruct K as [[S G] P Li]. split; [split|done|done].
+    - destruct S as [A1 A2 A3 A4]. by split.
+    - eapply (rgraph_ok_same_nodes w); try done; intros tid t Ht; exists t; repeat split; try done; intros; congruence. }
+  change (foldl _ (wl, []) (l)) with (foldl rm_tables_step (wl, []) (l)) in H.
+  assert (Hndt : NoDup (l)).
+  { done. }
+  pose proof (rm_loop_events_ok (as_issued A) (l) wl (as_live A) [] Hndt Kl C Hlis Hgen) as Hev.
+  destruct (foldl rm_tables_step (wl, []) (l)) as [w1 evs1]. cbn [snd] in Hev.
+  injection H as _ _ <-. rewrite Hev. done.
+Qed.
+
+Corollary batch_set_relation_events_cached w A id ce rid T w' n evs :
+  R w A -> cache_ok w -> cache_get w id = Some ce -> w_listener w = Some lall ->
+  op_batch_set_relation w (FCached id) rid T = (w', Ok (VNat n), evs) ->
+  evs = flat_map (sr_ev w rid) (table_ents w (retargeted T w (c_tables ce))).
+Proof.
+  intros HR C Hget Hlis H. destruct (cached_arg_ok w id ce C Hget) as (Harg & Hnd & Hsel).
+  by apply (batch_set_relation_events_exact_arg w A (FCached id) (c_tables ce) (c_filter ce) rid T w' n evs).
+Qed.
+
+Corollary batch_remove_events_cached w A id ce w' n evs :
+  R w A -> cache_ok w -> cache_get w id = Some ce -> w_listener w = Some lall ->
+  (forall e, e ∈ table_ents w (c_tables ce) -> (egen e < gen_max)%N) ->
+  op_remove_entities w (FCached id) = (w', Ok (VNat n), evs) ->
+  evs = flat_map (rm_ev w) (table_ents w (c_tables ce)).
+Proof.
+  intros HR C Hget Hlis Hgen H. destruct (cached_arg_ok w id ce C Hget) as (Harg & Hnd & Hsel).
+  by apply (batch_remove_events_exact_arg w A (FCached id) (c_tables ce) (c_filter ce) w' n evs).
 Qed.
